@@ -39,8 +39,9 @@ def hash_iter_sites(mir, crates):
             last = sir.norm_mir_name(callee).split("::")[-1]
             is_iter = False
             # inherent iteration methods of the collection itself
-            if re.search(r"(HashMap|HashSet)::<[^()]*>::(%s)\b" % "|".join(ITER_METHODS), g) or \
-               re.search(r"collections::hash::(map|set)::(HashMap|HashSet)<.*>::(%s)$" % "|".join(ITER_METHODS), sir.norm_mir_name(g)):
+            if re.search(r"(HashMap|HashSet)::<.*>::(%s)$" % "|".join(ITER_METHODS), g) or \
+               re.search(r"collections::hash::(map|set)::(HashMap|HashSet)<.*>::(%s)$" % "|".join(ITER_METHODS), sir.norm_mir_name(g)) or \
+               (re.search(r"(^|::)(HashMap|HashSet)(::|<)", callee) and last in ITER_METHODS):
                 is_iter = True
             # IntoIterator for (&)(mut) HashMap
             if last == "into_iter" and re.search(r"<&?(mut )?(')?\w*\s*std::collections::(HashMap|HashSet)<", g):
@@ -100,11 +101,69 @@ def classify_site(ctx, spanidx, b, c):
             name = p["pat"].get("name")
             for n in sir.walk(fn):
                 if n.get("k") == "mcall" and n["m"].startswith("sort") and sir.expr_str(sir.strip_ref(n["recv"])) == name:
-                    return True, "collected into `%s` and sorted before use" % name
+                    if n["m"] in ("sort", "sort_unstable"):
+                        return True, "collected into `%s` and sorted (total order on the entries, key first) before use" % name
+                    # a custom comparator canonicalises the order only if it compares the map key
+                    uses_key = any((x.get("k") == "field" and x["name"] == "0") for x in sir.walk(n)) or \
+                        any(x.get("k") == "p_tuple" and x["elems"] and x["elems"][0].get("k") == "p_ident" and
+                            any(y.get("k") == "path" and y["s"] == x["elems"][0]["name"] for y in sir.walk(n)) for x in sir.walk(n))
+                    if uses_key:
+                        return True, "collected into `%s` and sorted by a comparator that includes the map key" % name
+                    return False, "collected into `%s` and sorted by `%s` with a key that does not include the map key: entries with equal sort keys keep hash order" % (name, n["m"])
     p = pm.get(id(top))
     if p is not None and p.get("k") == "mcall" and p["m"] == "extend" and top in p["args"]:
         return False, "extends another collection in hash order"
     return False, "iterator chain `.%s` is order-sensitive" % ".".join(chain)
+
+
+def order_rules(ctx):
+    """C20.order: the group is a function of the *set* of files: mutators update flags monotonically and importing a group
+    overrides like adding its files does."""
+    ob = ctx.ob
+    tc = ctx.tc
+    obs = []
+    st = tc.struct("TmplGroup", "group")
+    if st is None:
+        return [ob("C20.order/anchor", False, "group.rs", "struct TmplGroup not found")]
+    bool_fields = [f["name"] for f in st["fields"] if f["ty"] == "bool"]
+    map_fields = [f["name"] for f in st["fields"] if re.search(r"(BTreeMap|HashMap|IndexMap)<", f["ty"])]
+    n_assign = 0
+    for f in tc.fns:
+        if f.base != "TmplGroup" or not f.body or "group" not in f.module:
+            continue
+        if f.name in ("new", "new_dev") or f.name.startswith("set_"):
+            continue
+        for n in sir.walk(f.body):
+            if n.get("k") == "assign" and n["l"].get("k") == "field" and n["l"]["name"] in bool_fields and sir.expr_str(n["l"]["base"]) in ("self", "this"):
+                n_assign += 1
+                fld = n["l"]["name"]
+                r = n["r"]
+                rs = sir.expr_str(r)
+                mono = (r.get("k") == "lit" and r.get("v") is True) or (r.get("k") == "binary" and r["op"] == "||" and sir.expr_str(r["l"]) == "self." + fld)
+                obs.append(ob("C20.order/monotone/%s/%s" % (f.qual, fld), mono, ctx.where(f),
+                              "`self.%s = %s` %s" % (fld, rs[:80], "only ever turns the flag on" if mono else "can turn the flag off again: the group state (and the runtime prelude emitted from it) depends on the order files were added"),
+                              witness=None if mono else "add a template with an inline <wxs>, then one without: the WXS runtime disappears from the bundle; the other order keeps it"))
+    if n_assign < 3:
+        obs.append(ob("C20.order/floor", False, "group.rs", "only %d flag assignments found in TmplGroup mutators (floor 3)" % n_assign))
+    imp = [f for f in tc.fns if f.base == "TmplGroup" and f.name == "import_group" and f.body and "group" in f.module]
+    if len(imp) != 1:
+        obs.append(ob("C20.order/import/anchor", False, "group.rs", "import_group not found"))
+    else:
+        f = imp[0]
+        for m in map_fields:
+            overriding = [n for n in sir.walk(f.body) if n.get("k") == "mcall" and n["m"] in ("extend", "insert", "append") and sir.expr_str(n["recv"]).endswith("." + m)]
+            guarded = [n for n in sir.walk(f.body) if n.get("k") == "mcall" and n["m"] in ("entry", "or_insert", "or_insert_with", "try_insert", "contains_key") and ("." + m) in sir.expr_str(n)]
+            ok = bool(overriding) and not guarded
+            obs.append(ob("C20.order/import/%s" % m, ok, ctx.where(f),
+                          "import_group merges `%s` with %s" % (m, "overriding insert/extend, as add_tmpl/add_script do" if ok else "a keep-existing insertion (%s): importing is not equivalent to adding the files" % [x["m"] for x in guarded][:3]),
+                          witness=None if ok else "two groups holding the same path with different content"))
+        # and the adders themselves override
+        for name, m in (("add_tmpl", "trees"), ("add_script", "scripts")):
+            g = [x for x in tc.fns if x.base == "TmplGroup" and x.name == name and x.body and "group" in x.module]
+            ok = len(g) == 1 and any(n.get("k") == "mcall" and n["m"] == "insert" and sir.expr_str(n["recv"]).endswith("." + m) for n in sir.walk(g[0].body)) \
+                and not any(n.get("k") == "mcall" and n["m"] in ("entry", "or_insert", "or_insert_with", "contains_key") for n in sir.walk(g[0].body))
+            obs.append(ob("C20.order/add/%s" % name, ok, "group.rs", "%s replaces an existing entry unconditionally (last add wins regardless of what was added before): %s" % (name, ok)))
+    return obs
 
 
 def run(ctx):
@@ -154,6 +213,8 @@ def run(ctx):
                   "detector found %r in the fixture" % sorted(kinds)))
     if n_bodies < 500:
         obs.append(ob("C20.floor/bodies", False, "mir facts", "only %d MIR bodies extracted (floor 500): extraction incomplete" % n_bodies))
+
+    obs += order_rules(ctx)
 
     # C20.counters: child scopes copy the counters
     tc = ctx.tc
